@@ -154,8 +154,14 @@ def add_fails(sym, recorded_before, reason):
 OPTIONS = ["images/boot.iso", "images/efiboot.img", "LiveOS/squashfs.img"]
 
 
-def read_section(sym, kinds, n_bare):
-    """[checksums]: every path gets exactly its own (type, value); bare digests are typed by length or rejected"""
+# relative keys of a pre-productmd (header-less, version 0.0) tree: keys that hold an '/os/' component next to the plain tail path
+LEGACY_OPTIONS = ["images/boot.iso", "x86_64/os/images/boot.iso", "a/os/b/os/images/boot.iso"]
+
+
+def read_section(sym, kinds, n_bare, legacy=False):
+    """[checksums]: every path gets exactly its own (type, value); bare digests are typed by length or rejected.
+    legacy: the section belongs to a version 0.0 tree (only absolute keys are rewritten there; relative ones are kept as they are)"""
+    OPTIONS = LEGACY_OPTIONS if legacy else globals()["OPTIONS"]
     p = SortedConfigParser()
     p.add_section("checksums")
     want = {}
@@ -171,6 +177,8 @@ def read_section(sym, kinds, n_bare):
             p.set("checksums", OPTIONS[i], v)
             want[OPTIONS[i]] = (True, None, v)
     ti = TreeInfo()
+    if legacy:
+        ti.header.version = "0.0"
     try:
         ti.checksums.deserialize(p)
         raised = None
@@ -254,6 +262,8 @@ def jobs(tier, seed):
         for c in itertools.product(["typed", "bare"], repeat=n):
             if big or n < 3 or (sum(1 for x in c if x == "bare") + seed) % 2 == 1:
                 out.append({"harness": "read_section", "params": {"kinds": list(c), "n_bare": 66 if (big or n == 1) else 42}})
+    for c in (["typed", "typed", "typed"], ["bare", "typed", "bare"], ["typed", "bare"]):
+        out.append({"harness": "read_section", "params": {"kinds": c, "n_bare": 42, "legacy": True}})
     for e in (False, True):
         out.append({"harness": "image_add_checksum", "params": {"existing": e}})
     return out
@@ -272,5 +282,6 @@ META = {
         "Checksums.add computing the digest itself (root_dir given): concrete component names, the same shapes of redundant components, the file of symbolic size "
         "<= 1 MiB + 2 lives at the lexically normalised path below the root and nowhere else (so 'x/../' where x does not exist must still resolve)",
         "[checksums] reader: 1-3 entries under concrete option names; 'type:value' with alphanumeric type / hex value, or a bare hex digest of symbolic length 0..66 (quick: 0..42 for 2-3 entries)",
+        "[checksums] of a version 0.0 tree: relative keys with and without '/os/' components side by side - each keeps its own checksum (absolute legacy keys are exercised by the shipped fixtures, C05)",
     ],
 }
